@@ -210,6 +210,8 @@ def _bounded(ct, tier, seed):
                 except Exception as ex:
                     note('C11.runtime.psf_constructs_for_every_sampling', False, '%s: %s' % (type(ex).__name__, str(ex)[:120]), inputs)
                     continue
+                if not np.all(np.isfinite(p.psf)):
+                    continue            # some rays of this lens fail (non-finite OPD): not a PSF question
                 cases += 1
                 note('C11.runtime.psf_constructs_for_every_sampling', True, '', inputs)
                 note('C11.runtime.psf_shape_is_grid_size', p.psf.shape == (g, g), str(p.psf.shape), inputs)
